@@ -12,7 +12,8 @@
 (*     real functions;                                                     *)
 (*  (3. observed 64-bit calls are judged with Apa_RoundTimeJudge.tla.)      *)
 (***************************************************************************)
-EXTENDS Integers, Sequences, Apa_RoundTimeTables
+EXTENDS Integers, Sequences
+T == INSTANCE Apa_RoundTimeTables
 
 VARIABLES
   \* @type: Int;
@@ -26,7 +27,30 @@ VARIABLES
   \* @type: Seq(Int);
   res
 
-Pow2(k) == ChainPow2(k)
+\* For queries with SYMBOLIC periods a sequence literal indexed by the exponent and a CHOOSE
+\* are much cheaper than the literal chains of Apa_RoundTimeTables (which are made to fold
+\* on literal arguments and are used for judging); Lemma_Tables pins both.
+\* @type: Seq(Int);
+Tbl == <<
+  1, 2, 4, 8,
+  16, 32, 64, 128,
+  256, 512, 1024, 2048,
+  4096, 8192, 16384, 32768,
+  65536, 131072, 262144, 524288,
+  1048576, 2097152, 4194304, 8388608,
+  16777216, 33554432, 67108864, 134217728,
+  268435456, 536870912, 1073741824, 2147483648,
+  4294967296, 8589934592, 17179869184, 34359738368,
+  68719476736, 137438953472, 274877906944, 549755813888,
+  1099511627776, 2199023255552, 4398046511104, 8796093022208,
+  17592186044416, 35184372088832, 70368744177664, 140737488355328,
+  281474976710656, 562949953421312, 1125899906842624, 2251799813685248,
+  4503599627370496, 9007199254740992, 18014398509481984, 36028797018963968,
+  72057594037927936, 144115188075855872, 288230376151711744, 576460752303423488,
+  1152921504606846976, 2305843009213693952, 4611686018427387904, 9223372036854775808,
+  18446744073709551616, 36893488147419103232 >>
+Pow2(k) == Tbl[k + 1]
+FloorLog2(x) == CHOOSE k \in 0..63 : Pow2(k) <= x /\ x < Pow2(k + 1)
 
 INSTANCE RoundTime WITH WordBits <- 64, BufBits <- 36,   \* Pow2, FloorLog2: the literal tables above
                         Periods <- {1}, Geneses <- {0}, RoundArgs <- {0}, Elapsed <- {0}
@@ -40,14 +64,15 @@ InDomain(pp, gg) == 1 <= pp /\ pp <= MaxPeriod /\ 0 <= gg /\ gg <= MaxGenesis
 -----------------------------------------------------------------------------
 (* 1. lemmas (one call: --init=LemmaInit --inv=Lemmas)                       *)
 Small == Pow2(30)
-LemmaInit == /\ p \in 1..Small /\ g \in 0..Small /\ arg \in 1..MaxU
+LemmaInit == /\ p \in 1..Small /\ g \in 0..(2 * Small - 1) /\ arg \in 1..MaxU
              /\ kind = "lemma" /\ res = <<>>
 LemmaNext == UNCHANGED <<p, g, kind, arg, res>>
-\* the TLC trace spec only sees calls with p, g, r+1 <= 2^30 and every time below 2^31:
+\* the TLC trace spec only sees calls with p, r+1 <= 2^30 and genesis and every time below 2^31:
 \* such a round is below the guard of its period and such a time is below the buffer
 Lemma_SmallIsExact == (arg <= Small + 1 => arg < Guard(p)) /\ 2 * Small < ErrVal
 \* the literal tables are what they must be (arg ranges over every uint64 here)
-Lemma_Tables == PowOK /\ LogOK(arg) /\ MaxU = 18446744073709551615 /\ ErrVal = 9223371968135299071
+Lemma_Tables == /\ PowOK /\ LogOK(arg) /\ MaxU = 18446744073709551615 /\ ErrVal = 9223371968135299071
+                /\ T!FloorLog2(arg) = FloorLog2(arg)
 Lemmas == Lemma_SmallIsExact /\ Lemma_Tables
 
 -----------------------------------------------------------------------------
